@@ -9,6 +9,7 @@ package rostrconv
 
 //@ func Atoi$1
 //@   props C18
+//@   binds v
 //@   maypanic
 //@   track call.*
 //@   ensures [calls-the-wrapped-function-once|C18] count(call.ANY) == 1 && called(call.Atoi)
@@ -17,6 +18,7 @@ package rostrconv
 
 //@ func FormatComplex$1
 //@   props C18
+//@   binds v mt prec bitSize
 //@   maypanic
 //@   track call.*
 //@   ensures [calls-the-wrapped-function-once|C18] count(call.ANY) == 1 && called(call.FormatComplex)
@@ -25,6 +27,7 @@ package rostrconv
 
 //@ func FormatFloat$1
 //@   props C18
+//@   binds v mt prec bitSize
 //@   maypanic
 //@   track call.*
 //@   ensures [calls-the-wrapped-function-once|C18] count(call.ANY) == 1 && called(call.FormatFloat)
@@ -33,6 +36,7 @@ package rostrconv
 
 //@ func FormatInt$1
 //@   props C18
+//@   binds v base
 //@   maypanic
 //@   track call.*
 //@   ensures [calls-the-wrapped-function-once|C18] count(call.ANY) == 1 && called(call.FormatInt)
@@ -41,6 +45,7 @@ package rostrconv
 
 //@ func FormatUint$1
 //@   props C18
+//@   binds v base
 //@   maypanic
 //@   track call.*
 //@   ensures [calls-the-wrapped-function-once|C18] count(call.ANY) == 1 && called(call.FormatUint)
@@ -49,6 +54,7 @@ package rostrconv
 
 //@ func ParseBool$1
 //@   props C18
+//@   binds v
 //@   maypanic
 //@   track call.*
 //@   ensures [calls-the-wrapped-function-once|C18] count(call.ANY) == 1 && called(call.ParseBool)
@@ -57,6 +63,7 @@ package rostrconv
 
 //@ func ParseFloat$1
 //@   props C18
+//@   binds v bitSize
 //@   maypanic
 //@   track call.*
 //@   ensures [calls-the-wrapped-function-once|C18] count(call.ANY) == 1 && called(call.ParseFloat)
@@ -65,6 +72,7 @@ package rostrconv
 
 //@ func ParseInt$1
 //@   props C18
+//@   binds v base bitSize
 //@   maypanic
 //@   track call.*
 //@   ensures [calls-the-wrapped-function-once|C18] count(call.ANY) == 1 && called(call.ParseInt)
@@ -73,6 +81,7 @@ package rostrconv
 
 //@ func ParseUint$1
 //@   props C18
+//@   binds v base bitSize
 //@   maypanic
 //@   track call.*
 //@   ensures [calls-the-wrapped-function-once|C18] count(call.ANY) == 1 && called(call.ParseUint)
@@ -81,6 +90,7 @@ package rostrconv
 
 //@ func ParseUint64$1
 //@   props C18
+//@   binds v base bitSize
 //@   maypanic
 //@   track call.*
 //@   ensures [calls-the-wrapped-function-once|C18] count(call.ANY) == 1 && called(call.ParseUint)
